@@ -254,13 +254,17 @@ def execute(ctx, bd, abi, scenarios, tag):
     return rows, viols, drifts, trf
 
 
+_SEGIDS = {}
+
+
 def seg_of(rows, idx):
     """scenario id of the segment containing event number idx (1-based)"""
+    key = id(rows)
+    if key not in _SEGIDS:
+        _SEGIDS.clear()
+        _SEGIDS[key] = {r.get("seg"): r.get("id") for r in rows if r.get("e") == "Reset"}
     seg = rows[idx - 1].get("seg") if 0 < idx <= len(rows) else None
-    for r in rows:
-        if r.get("e") == "Reset" and r.get("seg") == seg:
-            return r.get("id"), seg
-    return None, seg
+    return _SEGIDS[key].get(seg), seg
 
 
 def report(ctx, pid, rows, viols, scenarios, tag):
@@ -481,7 +485,7 @@ def replay(ctx, pid):
     abi = wire.export_abi(ctx)
     rows, viols, drifts, trf = execute(ctx, bd, abi, scs, "replay")
     n = report(ctx, pid, rows, viols, scs, "replay-file")
-    C.log("replayed %d scenario(s) of %s: %d event(s), %d violation(s) of %s" % (len(scs), ctx.replay, len(rows), n, pid))
+    C.log("replayed %d scenario(s) of %s: %d event(s), %d failed obligation(s) of %s (known findings included)" % (len(scs), ctx.replay, len(rows), n, pid))
     ctx.extra["rule"] = "replay of " + ctx.replay
 
 
